@@ -7,6 +7,7 @@ use of the caller's query or a callback without error check makes `lake build` f
 -/
 import Dawgs.Generated.C05_ranges
 import Dawgs.Generated.C12Api
+import Dawgs.Generated.C05_paramvalues
 namespace Dawgs.C05.Facts
 open Dawgs.Generated.C05
 
@@ -185,13 +186,47 @@ def knownUnguarded : List (String × String × String) :=
    ("translate/traversal.go", "Translator.applyExpansionSuffixPushdown", "part.TraversalSteps[suffixStartIndex:suffixEndIndex + 1]"),
    ("translate/traversal.go", "previousRelationshipUniquenessConstraint", "part.TraversalSteps[:stepIndex]"),
    ("translate/traversal.go", "expansionPreviousRelationshipUniquenessConstraint", "part.TraversalSteps[:stepIndex]"),
-   ("translate/update.go", "Translator.buildUpdates", "arrayLiteral.Values[idx]")]
+   ("translate/update.go", "Translator.buildUpdates", "arrayLiteral.Values[idx]"),
+   -- package pgsql (scanned since round 5): compound identifiers are built with two parts by the translator
+   ("pgsql/identifiers.go", "SymbolTable.RootIdentifiers", "typedIdentifier[0]"),
+   ("pgsql/model.go", "CompoundIdentifier.Root", "s[0]"),
+   ("pgsql/model.go", "CompoundIdentifier.Field", "s[1]")]
 
 /-- **unguarded_partial_sites_known**: every unguarded partial operation of translate/ is one of the listed ones; a new
 one breaks this obligation. Which of them the search reaches (under `recover`) is measured with Go's coverage
 instrumentation on every run and written to the evidence (`unguarded_sites_reached` / `…_unreached`). -/
 theorem unguarded_partial_sites_known :
     unguardedPartialSites.all (fun s => knownUnguarded.contains (s.1, s.2.2.1, s.2.2.2.2.1)) = true := by decide +kernel
+
+/-- **parameter_value_index_guarded**: `anySliceType` looks at element 0 and at `[1:]` of a caller's `[]any` parameter value;
+both are protected by a VERIFIED guard — a top-level `if len(slice) == 0 { return … }` before the use
+(`len-zero-return-guard`). A comparison with nil is not such a guard (an empty non-nil `[]any{}` passes it and `slice[0]`
+panics): with `slice == nil` the two sites turn `unguarded` and this obligation and `unguarded_partial_sites_known` fail.
+Every other partial operation of package pgsql is an index under `range`, or one of the three pinned ones. -/
+theorem parameter_value_index_guarded :
+    (pgsqlPartialSites.filter (fun s => wFn s == "anySliceType")).map (fun s => (s.2.2.2.2.1, wCls s))
+        = [("slice[0]", "len-zero-return-guard"), ("slice[1:]", "len-zero-return-guard")]
+    ∧ pgsqlPartialSites.all (fun s => ["range-index", "len-zero-return-guard", "unguarded", "full-slice", "constant-in-array"].contains (wCls s)) = true := by
+  decide +kernel
+
+/-- forms a generated value of a given shape must come in -/
+def requiredForms (shape : String) : List String :=
+  if shape == "slice" || shape == "map" then ["nil", "empty", "nonempty"]
+  else if shape == "pointer" then ["nil", "nonempty"]
+  else if shape == "interface" then ["nil", "value"]
+  else ["value"]
+
+/-- **parameter_value_types_generated**: every case of the type switches of `pgsql.ValueToDataType` / `pgsql.NegotiateValue`
+(regenerated from the source) has a generated parameter value of exactly that dynamic type in harness/c05params.go — in
+nil, empty non-nil and non-empty form where it is a slice or a map, nil and non-nil where it is a pointer — and the
+harness puts each value into every one of its parameter positions (IN lists, id lists, property comparison, pattern /
+CREATE / SET properties, UNWIND, function argument, projection, SKIP/LIMIT). A new case in either switch without a
+generated value breaks this obligation. (That the declared type and form are what the value is, the runner checks on
+every case.) -/
+theorem parameter_value_types_generated :
+    valueTypeSwitchCases.all (fun c => (requiredForms c.2.2).all (fun f => generatedParamValues.contains (c.2.1, f))) = true
+    ∧ 40 ≤ valueTypeSwitchCases.length ∧ 10 ≤ generatedParamPositions
+    ∧ generatedParamValues.contains ("[]any", "empty") = true := by decide +kernel
 
 /-! ### kind mapper -/
 
